@@ -403,7 +403,7 @@ def auth(ctx, desc):
                 w.deep.start()
                 import time
                 t0 = time.time()
-                while not w.deep.trigger_handler._tp_config and time.time() - t0 < 2 and want is not None:
+                while not w.deep.trigger_handler._tp_config and time.time() - t0 < 15 and want is not None:
                     time.sleep(0.002)
                 try:
                     w.deep.poll.poll()
